@@ -19,6 +19,8 @@ from ndn.security.validator.known_key_validator import (verify_rsa, verify_ecdsa
 from ndn.security.validator.digest_validator import sha256_digest_checker, params_sha256_checker
 from ndn.app_support.security_v2 import self_sign
 
+LEVEL = 'fault_enumeration'
+
 RULE = ('signed Data/Interest from the real encoder x matching verifiers (verify_*, *Checker.from_key/from_cert, '
         'sha256_digest_checker, params_sha256_checker); mutants: byte substitution at every position (2 values), '
         'every truncation, structural edits, spliced signatures, wrong key; distinct = (packet kind, signer, '
